@@ -260,6 +260,11 @@ PLAIN_INFO = b'{"type":"image","data_type":"uint8","num_channels":1,"scales":[{"
 MIXED_INFO = PLAIN_INFO[:-2] + b',{"key":"k2","size":[2,2,2],"chunk_sizes":[[2,2,2]],"encoding":"raw","resolution":[2,2,2],"voxel_offset":[0,0,0],"sharding":{"@type":"neuroglancer_uint64_sharded_v1"}}]}'
 
 
+# file URLs: the path is percent-decoded and nothing else (RFC 8089 / RFC 3986: '+' is a literal plus sign)
+FILE_URL_DECODING = {"file:///data/t1+t2": "/data/t1+t2", "file:///data/a%20b": "/data/a b", "file:///data/a%2Bb": "/data/a+b",
+                     "precomputed://file:///data/x+y/z": "/data/x+y/z", "/data/plain+name": "/data/plain+name"}
+
+
 @register
 class GetAccessorForUrl(Contract):
     """sharded reader exactly when the dataset's info declares sharding (every scale); option plumbing"""
@@ -271,7 +276,8 @@ class GetAccessorForUrl(Contract):
                                        "http://host/ds", "precomputed://https://host/ds/"),
                                       ("sharded", "plain", "mixed", "missing", "garbage", "noscales", "emptyscales"),
                                       ({}, {"flat": True, "gzip": False, "compresslevel": 3}))) + \
-        (("ftp://host/x", "missing", {}), ("file://otherhost/data", "missing", {}))
+        (("ftp://host/x", "missing", {}), ("file://otherhost/data", "missing", {})) + \
+        tuple((u, "missing", {}) for u in FILE_URL_DECODING)
 
     def setup(self, c, cfg):
         url, kind, opts = cfg
@@ -286,6 +292,7 @@ class GetAccessorForUrl(Contract):
                 w.entries.append((u, {"fails": False, "status": 200 if content is not None else 404, "body": body}))
         else:
             fs = get_fs()
+            fs.unseen_paths_absent = url in FILE_URL_DECODING        # an otherwise empty file system: no info anywhere
             e = fsmodel.FSEntry(BASE + "/info", content is not None, SBytes.from_concrete(content) if content is not None else None)
             fs.entries.append(e)
             fs.entries.append(fsmodel.FSEntry(BASE + "/info.gz", False, None))
@@ -307,7 +314,7 @@ class GetAccessorForUrl(Contract):
             yield ("options-passed-on(flat,gzip,compresslevel)",
                    a.get("gzip") == opts.get("gzip", True) and a.get("compresslevel") == opts.get("compresslevel", 9)
                    and ("_" in a.get("chunk_pattern", "")) == bool(opts.get("flat", False)))
-            yield ("base-path", str(a.get("base_path")) == BASE)
+            yield ("base-path==the-percent-decoded-path-of-the-URL", str(a.get("base_path")) == FILE_URL_DECODING.get(url, BASE))
 
     def raises_when(self, c):
         from neuroglancer_scripts.accessor import URLError
